@@ -34,6 +34,20 @@
 (* are boolean constants: TRUE = the repaired code; the FALSE value is     *)
 (* kept as a mutant configuration.  "Never panics" = the outcome domain    *)
 (* {ok, error} has no other member.                                        *)
+(*                                                                         *)
+(* Answers of the reopened WAL.  An outcome is "ok" (every offset of       *)
+(* [FirstOffset, LastOffset] was read), "error" (the open or the read of   *)
+(* an entry REPORTED damage: a corruption error) or "hole": the WAL opened,*)
+(* claims [FirstOffset, LastOffset], and answers "there is no such offset" *)
+(* for an offset inside that range - it serves a log with a gap, the       *)
+(* entries from there to the end of the segment are dropped without any    *)
+(* report (out.ents = what was read in front of the gap).  A hole arises   *)
+(* when the index of a closed segment covers fewer records than the        *)
+(* segment holds: the index file of a closed segment is never fsynced, so  *)
+(* after a crash it is rebuilt from the txn file (newReadOnlySegment ->    *)
+(* RecoverIndex without a commit offset), and a rebuild that STOPS at a    *)
+(* record instead of failing yields a short index, which is also written   *)
+(* back.  "hole" is outside the outcome domain of the property.            *)
 (***************************************************************************)
 EXTENDS Integers, Sequences, FiniteSets, TLC
 
@@ -42,7 +56,9 @@ CONSTANTS SizeOverflowChecked, \* header size near 2^32 is rejected (FALSE: size
           ZeroTail,            \* recovery clears the writable segment behind the recovered end (FALSE: stale records stay)
           RolloverFlushes,     \* a segment is flushed before its successor is created (FALSE: closed segments can be torn)
           EmptyReported,       \* a zero size field at or below the commit offset with data behind it is an error (FALSE: end of log)
-          TruncClearsTail      \* Truncate zeroes the whole removed tail of the segment (FALSE: only the header of the first removed record)
+          TruncClearsTail,     \* Truncate zeroes the whole removed tail of the segment (FALSE: only the header of the first removed record)
+          RoRebuildStrict      \* a corrupt record met while the index of a CLOSED segment is rebuilt from its txn file fails the rebuild
+                               \* (FALSE: the scan stops there and the segment is served with the records in front of the damage)
 
 None == [rec |-> -1, field |-> "none", cls |-> "none", at |-> -1]
 
@@ -239,9 +255,20 @@ KfRoTail(img) == /\ Damaged(img) /\ D(img) > img.commit /\ Lay(img)[D(img) + 1].
 \* a record's checksum is seeded with the previous-crc field of its own header; nothing compares
 \* that field with the checksum of the record before it
 KfSplice(img) == img.dmg.field = "splice"
+\* the rebuild of a lost index of a closed segment takes a zeroed size field for the end of the segment (there is no
+\* commit offset to compare with): the segment is served with the records in front of it, the rest is a hole
+KfRoZero(img) == /\ img.codec = "v2"
+                 /\ img.dmg.field = "record" \/ (img.dmg.field = "size" /\ img.dmg.cls = "s0")
+                 /\ LET s == Lay(img)[D(img) + 1].seg
+                    IN /\ s < Live(img) /\ D(img) + 1 > FirstRec(img, s)
+                       \* the index is rebuilt.  With a history the index file of a closed segment is not reliable either:
+                       \* WriteIndex does not truncate the file, so a segment that was closed, reopened by TruncateLog and
+                       \* closed again with fewer records keeps a stale tail, fails its checksum and is rebuilt on every open
+                       /\ img.idx[s] # "ok" \/ NR(img) > 0
 Kf(img) == (IF KfWipedLast(img) THEN {"wipedLast"} ELSE {}) \cup
            (IF KfRoTail(img) THEN {"roTail"} ELSE {}) \cup
-           (IF KfSplice(img) THEN {"splice"} ELSE {})
+           (IF KfSplice(img) THEN {"splice"} ELSE {}) \cup
+           (IF KfRoZero(img) THEN {"roZero"} ELSE {})
 
 (***************************************************************************)
 (* The property.                                                           *)
@@ -273,9 +300,9 @@ RecoveryOkV2(img, out) ==
 \* v1 has no checksum: crash images at record granularity are claimed in full; with a damaged size field only
 \* "no panic, no hang" and the entries in front of the damage
 RecoveryOkV1(img, out) ==
-    /\ out.res \in {"ok", "error"}
+    /\ out.res \in {"ok", "error"} \/ (Damaged(img) /\ out.res = "hole")     \* no checksum: damage cannot be told from the end
     /\ IF Damaged(img)
-       THEN /\ out.res = "ok" => LET k == IF Len(out.ents) < D(img) THEN Len(out.ents) ELSE D(img)
+       THEN /\ out.res \in {"ok", "hole"} => LET k == IF Len(out.ents) < D(img) THEN Len(out.ents) ELSE D(img)
                                  IN SubSeq(out.ents, 1, k) = Ids(k)
             /\ out.pres \in {"none", "ok", "error"}
        ELSE /\ CleanPrefix(out, Durable(img) + 1, N(img))
@@ -294,6 +321,7 @@ Symptom(img, out) ==
        /\ out.first = 0 /\ out.last = Len(out.ents) - 1
        /\ \/ out.pres = "none"
           \/ out.pres = "ok" /\ out.pents = out.ents \o [j \in 1..Len(img.post) |-> 100 + j - 1]
+    \/ /\ KfRoZero(img) /\ out.res = "hole" /\ out.ents = Ids(D(img))      \* the gap starts exactly at the zeroed record
 
 \* verdict on one outcome: "ok", "kf:<id>" (a recorded finding shows its symptom) or "bad"
 Judge(img, out, guarded) ==
@@ -335,6 +363,7 @@ Scan(img, i, hi, useCommit) ==
                    ELSE [res |-> "ok", upto |-> i - 1]                               \* taken for the end of the log
          ELSE IF st = "ovf" /\ ~SizeOverflowChecked THEN [res |-> "panic", upto |-> i - 1]
          ELSE IF useCommit /\ i - 1 > img.commit THEN [res |-> "ok", upto |-> i - 1]   \* discard
+         ELSE IF ~useCommit /\ ~RoRebuildStrict THEN [res |-> "ok", upto |-> i - 1]    \* mutant: closed segment cut short
          ELSE [res |-> "error", upto |-> i - 1]
 
 \* newReadOnlySegment(s): res and `upto` = last record the index covers
@@ -362,7 +391,7 @@ ReadAll(img, i, last, acc) ==          \* i = record to read next; last = last r
              ro == IF s < Live(img) THEN OpenRO(img, s) ELSE [res |-> "ok", upto |-> last]
              st == Stat(img, i)
          IN IF ro.res # "ok" THEN [res |-> ro.res, ents |-> acc]
-            ELSE IF i > ro.upto THEN [res |-> "error", ents |-> acc]
+            ELSE IF i > ro.upto THEN [res |-> "hole", ents |-> acc]       \* readOnlySegment.Read: offset > lastOffset
             ELSE IF st = "valid" THEN ReadAll(img, i + 1, last, Append(acc, IdAt(img, i)))
             ELSE IF st = "ovf" /\ ~SizeOverflowChecked THEN [res |-> "panic", ents |-> acc]
             ELSE [res |-> "error", ents |-> acc]
